@@ -532,6 +532,76 @@ theorem pop_stack (o : Ops) (s : MSt) (el : Str) : (pop o s el).stack = s.stack 
             · exact .inr ⟨top, hst⟩
             · exact .inr ⟨top, hst⟩
 
+theorem flag_frame4 (c : Core) (a b : Bool) : Frame4 c { c with inauthor := a, incontributor := b } :=
+  ⟨rfl, rfl, rfl, rfl, rfl, rfl, rfl, rfl, rfl, rfl, rfl, fun _ => rfl⟩
+
+theorem startAuthorKinds_frame4 (c : Core) (kind : Str) (a : List (Str × Str)) (c' : Core) (es : List Elem)
+    (h : startAuthorKinds c kind a = some (c', es)) : Frame4 c c' := by
+  have P : ∀ (c0 : Core) (d : D), Frame4 c c0 → Frame4 c (putContext c0 d) := fun c0 d h0 => h0.trans (putContext_frame4 _ _)
+  unfold startAuthorKinds at h
+  split at h
+  · injection h with h
+    split at h
+    · injection h with h1 _; rw [← h1]; exact P _ _ (flag_frame4 c true c.incontributor)
+    · split at h
+      · injection h with h1 _; rw [← h1]; exact flag_frame4 c true c.incontributor
+      · injection h with h1 _; rw [← h1]; exact P _ _ (flag_frame4 c true c.incontributor)
+  · split at h
+    · injection h with h
+      split at h
+      · injection h with h1 _; rw [← h1]; exact P _ _ (flag_frame4 c c.inauthor true)
+      · split at h
+        · injection h with h1 _; rw [← h1]; exact flag_frame4 c c.inauthor true
+        · injection h with h1 _; rw [← h1]; exact P _ _ (flag_frame4 c c.inauthor true)
+    · split at h
+      · injection h with h; injection h with h1 _; rw [← h1]; exact Frame4.refl c
+      · split at h
+        · injection h with h; injection h with h1 _; rw [← h1]; exact Frame4.refl c
+        · split at h
+          · injection h with h; injection h with h1 _; rw [← h1]; exact Frame4.refl c
+          · cases h
+
+theorem savePart_frame4 (o : Ops) (c : Core) (k : Str) (v : Option Str) (b : Bool) : Frame4 c (savePart o c k v b) := by
+  unfold savePart
+  split
+  · exact putContext_frame4 _ _
+  · split
+    · exact putContext_frame4 _ _
+    · exact Frame4.refl c
+
+theorem popPlain_frame (s : MSt) (el : Str) :
+    (popPlain s el).2.c = s.c ∧ ((popPlain s el).2.stack = s.stack ∨ ∃ top, s.stack = top :: (popPlain s el).2.stack) := by
+  unfold popPlain
+  split
+  · rename_i top rest hst
+    split
+    · exact ⟨rfl, .inl rfl⟩
+    · exact ⟨rfl, .inr ⟨top, hst⟩⟩
+  · exact ⟨rfl, .inl rfl⟩
+
+/-- inversion of the stage-7 end handlers -/
+theorem endAuthorKinds_ok (o : Ops) (s s1 : MSt) (kind : Str) (h : endAuthorKinds o s kind = some s1) :
+    Frame4 s.c s1.c ∧ (s1.stack = s.stack ∨ ∃ top, s.stack = top :: s1.stack) := by
+  unfold endAuthorKinds at h
+  split at h
+  · injection h with h; rw [← h]
+    exact ⟨(pop_frame4 o s _).trans ((flag_frame4 _ false _).trans (putContext_frame4 _ _)), pop_stack o s _⟩
+  · split at h
+    · injection h with h; rw [← h]
+      exact ⟨(pop_frame4 o s _).trans (flag_frame4 _ _ false), pop_stack o s _⟩
+    · split at h
+      · injection h with h; rw [← h]
+        have hp := popPlain_frame s (S "name")
+        exact ⟨by simp only; rw [← hp.1]; exact savePart_frame4 _ _ _ _ _, hp.2⟩
+      · split at h
+        · injection h with h; rw [← h]
+          have hp := popPlain_frame s (S "email")
+          exact ⟨by simp only; rw [← hp.1]; exact savePart_frame4 _ _ _ _ _, hp.2⟩
+        · split at h
+          · injection h with h; rw [← h]
+            exact ⟨(pop_frame4 o s _).trans (savePart_frame4 _ _ _ _ _), pop_stack o s _⟩
+          · cases h
+
 theorem startLG_frame4 (o : Ops) (c : Core) (kind : Str) (a : List (Str × Str)) (c' : Core) (es : List Elem)
     (h : startLG o c kind a = .ok (c', es)) : Frame4 c c' := by
   unfold startLG at h
@@ -555,7 +625,12 @@ theorem startLG_frame4 (o : Ops) (c : Core) (kind : Str) (a : List (Str × Str))
           unfold startEnclosure
           simp only
           split <;> exact putContext_frame4 _ _
-        · cases h
+        · split at h
+          · rename_i r hr
+            injection h with h
+            rw [h] at hr
+            exact startAuthorKinds_frame4 c kind a c' es hr
+          · cases h
 
 theorem popLink_frame4 (o : Ops) (s : MSt) :
     Frame4 s.c (popLink o s).c ∧ ((popLink o s).stack = s.stack ∨ ∃ top, s.stack = top :: (popLink o s).stack) := by
@@ -603,6 +678,11 @@ theorem endLG_ok (o : Ops) (s s' : MSt) (kind : Str) (h : endLG o s kind = .ok s
       · split at h
         · injection h with h
           exact ⟨_, (pop o s (S "enclosure")).stack, pop_frame4 o s _, h.symm, pop_stack o s _⟩
-        · cases h
+        · split at h
+          · rename_i s1 hs1
+            injection h with h
+            obtain ⟨hf, hst⟩ := endAuthorKinds_ok o s s1 kind hs1
+            exact ⟨s1.c, s1.stack, hf, h.symm, hst⟩
+          · cases h
 
 end FeedVerif.Mixin
